@@ -13,4 +13,5 @@ open XotModel.Props
 #print axioms C02_scope_unprefixed_attribute
 #print axioms C02_spelled_fragment
 #print axioms C02_spelled_document
+#print axioms C02_fragment_spelled
 #print axioms C02_envBase_fresh
